@@ -3,6 +3,7 @@ package checks
 import (
 	"encoding/json"
 	"fmt"
+	"time"
 
 	"mossverif/eng"
 	"mossverif/run"
@@ -127,8 +128,8 @@ func stressShard(c *run.Ctx, prop string, race bool) *run.ShardResult {
 		sr.Counters["compactions"] += int64(res.Compactions)
 		sr.Counters["porcupine_ops_checked"] += int64(res.PorcChecked)
 		sr.Counters["porcupine_unknown"] += int64(res.PorcUnknown)
-		if int64(res.MaxTop) > sr.Counters["max_top_height"] {
-			sr.Counters["max_top_height"] = int64(res.MaxTop)
+		if int(res.MaxTop) >= p.Cfg.MaxPre() {
+			sr.Counters["runs_reaching_max_top_height"]++
 		}
 		if !sigs[res.TraceSig] {
 			sigs[res.TraceSig] = true
@@ -150,4 +151,26 @@ func stressShard(c *run.Ctx, prop string, race bool) *run.ShardResult {
 		}
 	}
 	return sr
+}
+
+func init() {
+	ck := &run.Check{
+		Prop:      "C17",
+		Level:     "exploration",
+		NeedsRace: true,
+		Rule: "the C03 concurrent driver (writers on disjoint keys incl. child collections, full / hammer / direct-Get readers with their oracles active) plus a goroutine issuing Stats, Histograms, Options, asynchronous NotifyMerger (plain and mergeAll), Store.Stats, Store.Histograms, Store.Snapshot + Get + iterator, runs inside a binary built with -race (which also enables checkptr for the unsafe slice conversions on mmapped segments) over the option matrix DeferredSort x CachePersisted x backing {none, mossStore with small compaction levels, custom lower level} x child collections, with seeded delays at the hook points; Close only after the user goroutines have joined. GORACE=halt_on_error=0 log_path=...; every 'WARNING: DATA RACE' block in the log with a moss frame is a violation, de-duplicated by the innermost moss functions of the two accesses; blocks without moss frames are counted as harness races. distinct_nontrivial = distinct (backing | API call overlapping a background phase | options) units observed.",
+		MinUnits:    10,
+		Assumptions: []string{"the race detector only sees races the run exercises", "concurrent Close is not part of this workload (C16)"},
+		WorkerTimeout: func(tier string) time.Duration {
+			if tier == "thorough" {
+				return 120 * time.Minute
+			}
+			return 40 * time.Minute
+		},
+	}
+	ck.Run = func(c *run.Ctx) *run.ShardResult { return stressShard(c, "C17", true) }
+	ck.Replay = func(body json.RawMessage, scratch string) ([]run.ViolationRec, string) {
+		return nil, "race reports are replayed by re-running the check (./run.sh C17 quick) - schedules are not reproducible"
+	}
+	run.Register(ck)
 }
